@@ -867,6 +867,7 @@ class Controller(object):
 
         # Otherwise, we are doing a restart
         self.last_successful_iter = 0
+        self.rhoend = params("restarts.rhoend_scale") * self.rhoend  # solve_main rescales its own rhoend after each restart
         return None  # exit_info = None
 
     def move_furthest_points(self, number_of_samples, num_pts_to_move, params):
